@@ -191,6 +191,17 @@ impl PdfError {
             _ => false
         }
     }
+    /// The error reports that an indirect reference leads to an object that does not exist:
+    /// a free entry, a number inside a hole of the cross-reference table, or a number beyond it.
+    /// Such a reference is a reference to the null object (PDF 32000-1:2008, 7.3.10).
+    pub fn is_missing_object(&self) -> bool {
+        match self {
+            PdfError::NullRef { .. } | PdfError::FreeObject { .. } | PdfError::UnspecifiedXRefEntry { .. } => true,
+            PdfError::Try { ref source, .. } => source.is_missing_object(),
+            PdfError::Shared { ref source } => source.is_missing_object(),
+            _ => false
+        }
+    }
 }
 datasize::non_dynamic_const_heap_size!(PdfError, 0);
 
